@@ -36,12 +36,23 @@ def rect(mulgrids, sub, nx, ny, nz, convention=0, atmos=0, order=None, justify='
 
 
 def toy(mulgrids, which, convention=0, atmos=0):
-    """Small mixed triangle / quad / pentagon meshes built node by node."""
+    """Small mixed triangle / quad / pentagon / hexagon / heptagon meshes built node by node."""
     import numpy as np
     m = mulgrids
     geo = m.mulgrid(convention=convention, atmos_type=atmos)
-    which %= 3
-    if which == 0:
+    rot = (which // 4) % 7
+    which %= 4
+    if which == 3:
+        # a quadrilateral with mid-side nodes on three of its sides (7 nodes), listed from any of
+        # its nodes, with two small quads along each of those sides
+        pts = {'a': (0, 0), 'b': (10, 0), 'c': (20, 0), 'd': (20, 10), 'e': (20, 20), 'f': (10, 20),
+               'g': (0, 20), 'p': (0, -10), 'q': (10, -10), 'r': (20, -10), 's': (30, 0),
+               't': (30, 10), 'u': (30, 20), 'v': (0, 30), 'w': (10, 30), 'x': (20, 30)}
+        big = ('a', 'b', 'c', 'd', 'e', 'f', 'g')
+        cols = [big[rot:] + big[:rot], ('p', 'q', 'b', 'a'), ('q', 'r', 'c', 'b'),
+                ('c', 's', 't', 'd'), ('d', 't', 'u', 'e'), ('g', 'f', 'w', 'v'),
+                ('f', 'e', 'x', 'w')]
+    elif which == 0:
         # a pentagon with one straight node (k on the edge d-e) under two small quads, and quads
         pts = {'a': (0, 0), 'b': (10, 0), 'c': (20, 0), 'd': (0, 10), 'k': (5, 10), 'e': (10, 10),
                'f': (20, 10), 'g': (0, 20), 'm': (5, 20), 'h': (10, 20), 'i': (20, 20)}
